@@ -96,10 +96,7 @@ func (w *World) readPathsOracle(prop string) []Violation {
 				return []Violation{{Prop: prop, Sig: "snapshot-get-differs-from-iteration|read-paths|any",
 					Msg: fmt.Sprintf("Get(%q): Snapshot.Get=%s but iteration has (present=%v value=%q); model=%s", k, fmtVal(sv), inIter, iv, modelVal(m, k))}}
 			}
-			if fmtVal(sv) != modelVal(m, k) {
-				return []Violation{{Prop: prop, Sig: "reads-agree-but-differ-from-model|read-paths|any",
-					Msg: fmt.Sprintf("Get(%q): all read paths say %s, the reference says %s", k, fmtVal(sv), modelVal(m, k))}}
-			}
+			_ = m // whether the agreed value equals the reference is C01/C08's question, not C10's
 		}
 	}
 	return nil
